@@ -277,6 +277,41 @@ def _cell(args):
             out.update(got=gv, err="outcome with verbose=True", verbose=True)
     except Exception:
         pass
+    # the same cell with every argument of every library FUNCTION passed by its (pinned) keyword name: same outcome
+    try:
+        from ..qlib import as_all_keyword
+        import inspect
+        Lns = lib()
+        patched = []
+        for mod in (Lns.utils, Lns.LU, Lns.qsvd, Lns.eigen, Lns.tridiag, Lns.hess, Lns.schur, Lns.tensor, Lns.qslst):
+            for nm, fn0 in list(vars(mod).items()):
+                if inspect.isfunction(fn0) and fn0.__module__ == mod.__name__ and not nm.startswith("_"):
+                    def mk(fn0=fn0):
+                        def kwcall(*a, **k):
+                            r_ = as_all_keyword(fn0, a, k)
+                            return fn0(**r_[1]) if r_ is not None else fn0(*a, **k)
+                        kwcall.__wrapped__ = fn0
+                        return kwcall
+                    patched.append((mod, nm, fn0))
+                    setattr(mod, nm, mk())
+        try:
+            fk, _ = build(ep, cls, np.random.default_rng(seed))
+            np.random.seed(3)
+            try:
+                with contextlib.redirect_stdout(io.StringIO()):
+                    fk()
+                gk = "returns"
+            except TypeError as e:
+                gk = got if "unexpected keyword" in str(e) or "got multiple values" in str(e) else "raises"      # a renamed parameter is not this property's business
+            except BaseException:
+                gk = "raises"
+        finally:
+            for mod, nm, fn0 in patched:
+                setattr(mod, nm, fn0)
+        if gk != got and got == want and not out.get("verbose"):
+            out.update(got=gk, err="outcome when every argument is passed by keyword", keyword_style=True)
+    except Exception:
+        pass
     return out
 
 
